@@ -1,40 +1,268 @@
+//! C05 (and the C01/C04 race clauses) on the sync SPSC channel: a blocking operation on top, the
+//! enabling operation(s) of the other side injected by the solver at any synchronisation point
+//! (nested-preemption class, SC memory). `stuck_is_bug`: the top operation must return.
 use crate::common::*;
 use fibre::__verif as sched;
 use fibre::error::*;
-use fibre::spsc;
-use std::sync::atomic::{AtomicPtr, Ordering::Relaxed};
+use fibre::spsc::{self, BoundedSyncReceiver as Rx, BoundedSyncSender as Tx};
+use std::sync::atomic::{AtomicPtr, AtomicU8, Ordering::Relaxed};
+use std::time::Duration;
 
-static TXP: AtomicPtr<spsc::BoundedSyncSender<u8>> = AtomicPtr::new(std::ptr::null_mut());
+static TXP: AtomicPtr<Option<Tx<u8>>> = AtomicPtr::new(std::ptr::null_mut());
+static RXP: AtomicPtr<Option<Rx<u8>>> = AtomicPtr::new(std::ptr::null_mut());
+static ACT_OK: AtomicU8 = AtomicU8::new(0);
 
-fn actor_send(_i: sched::ActorId) {
-  let tx = unsafe { &*TXP.load(Relaxed) };
-  assert!(tx.try_send(7).is_ok(), "C03: try_send into empty channel");
+fn txh() -> &'static mut Option<Tx<u8>> {
+  unsafe { &mut *TXP.load(Relaxed) }
+}
+fn rxh() -> &'static mut Option<Rx<u8>> {
+  unsafe { &mut *RXP.load(Relaxed) }
+}
+fn a_send7(_a: sched::ActorId) {
+  let r = txh().as_ref().unwrap().try_send(7);
+  assert!(r.is_ok(), "C03: try_send into an empty channel failed");
+  ACT_OK.store(1, Relaxed);
+}
+fn a_send7_then_drop(_a: sched::ActorId) {
+  let r = txh().as_ref().unwrap().try_send(7);
+  assert!(r.is_ok(), "C03: try_send into an empty channel failed");
+  *txh() = None;
+}
+fn a_drop_tx(_a: sched::ActorId) {
+  *txh() = None;
+}
+fn a_close_tx(_a: sched::ActorId) {
+  let _ = txh().as_ref().unwrap().close();
+}
+fn a_drop_rx(_a: sched::ActorId) {
+  *rxh() = None;
+}
+fn a_close_rx(_a: sched::ActorId) {
+  let _ = rxh().as_ref().unwrap().close();
+}
+fn a_recv(_a: sched::ActorId) {
+  let r = rxh().as_ref().unwrap().try_recv();
+  assert!(r.is_ok(), "C01: try_recv on a non-empty channel failed");
+  ACT_OK.store(ACT_OK.load(Relaxed) + 1, Relaxed);
 }
 
-/// C05 (spsc): blocking recv on top, sender actor injected at any sync point.
+macro_rules! setup {
+  ($cap:expr, $prefill:expr, $tx:ident, $rx:ident) => {
+    let (t, r) = spsc::bounded_sync::<u8>($cap);
+    let mut i = 0u8;
+    while i < $prefill {
+      assert!(t.try_send(i).is_ok(), "C03: prefill try_send failed");
+      i += 1;
+    }
+    let mut $tx = Some(t);
+    let mut $rx = Some(r);
+    TXP.store(&mut $tx as *mut _, Relaxed);
+    RXP.store(&mut $rx as *mut _, Relaxed);
+  };
+}
+
+/// recv() blocked on an empty channel; the sender's try_send lands anywhere.
 #[kani::proof]
 #[kani::unwind(4)]
 fn c05_q_spsc_recv_vs_send() {
-  let (tx, rx) = spsc::bounded_sync::<u8>(1);
-  let mut tx = std::mem::ManuallyDrop::new(tx);
-  TXP.store(&mut *tx as *mut _, Relaxed);
-  sched::install(actor_send, 1, 1);
+  with_pick(40, |at| {
+  setup!(1, 0, tx, rx);
+  sched::set_preempt_at(at);
+  sched::install(a_send7, 1, 1);
   sched::set_stuck_is_bug(true);
-  let r = rx.recv();
-  assert!(r == Ok(7), "C05: recv returns the sent value");
+  sched::allow_spurious_unpark(1);
+  let r = rx.as_ref().unwrap().recv();
+  assert!(r == Ok(7), "C05: recv did not return the sent value");
   kani::cover!(sched::started_at(1) > 2, "sender ran after recv's first checks");
   std::mem::forget(rx);
+  std::mem::forget(tx);
+  assert!(sched::points() <= 40, "VERIF-BOUND: more scheduling points than the dispatch covers");
+  });
 }
 
-/// playback probe: fails only when the actor is scheduled late
+/// send() blocked on a full channel; the receiver's try_recv lands anywhere.
+#[kani::proof]
+#[kani::unwind(4)]
+fn c05_q_spsc_send_vs_recv() {
+  with_pick(40, |at| {
+  setup!(1, 1, tx, rx);
+  sched::set_preempt_at(at);
+  sched::install(a_recv, 1, 1);
+  sched::set_stuck_is_bug(true);
+  let r = tx.as_ref().unwrap().send(9);
+  assert!(r.is_ok(), "C05: blocked send did not complete after a receive");
+  sched::uninstall();
+  assert!(rx.as_ref().unwrap().try_recv() == Ok(9), "C03: blocked send lost or overwrote a value");
+  kani::cover!(sched::started_at(1) > 2, "receiver ran after send's first checks");
+  std::mem::forget(rx);
+  std::mem::forget(tx);
+  assert!(sched::points() <= 40, "VERIF-BOUND: more scheduling points than the dispatch covers");
+  });
+}
+
+/// recv() blocked on an empty channel; the sender is dropped / closed anywhere: Disconnected.
+#[kani::proof]
+#[kani::unwind(4)]
+fn c05_q_spsc_recv_vs_sender_drop() {
+  with_pick(40, |at| {
+  setup!(1, 0, tx, rx);
+  let close: bool = kani::any();
+  sched::set_preempt_at(at);
+  sched::install(if close { a_close_tx } else { a_drop_tx }, 1, 1);
+  sched::set_stuck_is_bug(true);
+  let r = rx.as_ref().unwrap().recv();
+  assert!(r == Err(RecvError::Disconnected), "C05: recv did not observe the sender going away");
+  kani::cover!(sched::started_at(1) > 2, "sender dropped after recv's first checks");
+  std::mem::forget(rx);
+  std::mem::forget(tx);
+  assert!(sched::points() <= 40, "VERIF-BOUND: more scheduling points than the dispatch covers");
+  });
+}
+
+/// send() blocked on a full channel; the receiver is dropped / closed anywhere: Closed.
+#[kani::proof]
+#[kani::unwind(4)]
+fn c05_q_spsc_send_vs_receiver_drop() {
+  with_pick(40, |at| {
+  setup!(1, 1, tx, rx);
+  let close: bool = kani::any();
+  sched::set_preempt_at(at);
+  sched::install(if close { a_close_rx } else { a_drop_rx }, 1, 1);
+  sched::set_stuck_is_bug(true);
+  let r = tx.as_ref().unwrap().send(9);
+  assert!(r == Err(SendError::Closed), "C05: blocked send did not observe the receiver going away");
+  kani::cover!(sched::started_at(1) > 2, "receiver dropped after send's first checks");
+  std::mem::forget(rx);
+  std::mem::forget(tx);
+  assert!(sched::points() <= 40, "VERIF-BOUND: more scheduling points than the dispatch covers");
+  });
+}
+
+/// C04 straggler window: the last sender sends and is dropped while recv() is in flight: the value
+/// must be delivered, not Disconnected.
+#[kani::proof]
+#[kani::unwind(4)]
+fn c04_q_spsc_recv_vs_send_then_drop() {
+  with_pick(40, |at| {
+  setup!(1, 0, tx, rx);
+  sched::set_preempt_at(at);
+  sched::install(a_send7_then_drop, 1, 1);
+  sched::set_stuck_is_bug(true);
+  let r = rx.as_ref().unwrap().recv();
+  assert!(r == Ok(7), "C04: value sent before the last sender dropped was not delivered");
+  assert!(rx.as_ref().unwrap().try_recv() == Err(TryRecvError::Disconnected), "C04: no Disconnected after drain");
+  kani::cover!(sched::started_at(1) > 2, "sender ran after recv's first checks");
+  std::mem::forget(rx);
+  std::mem::forget(tx);
+  assert!(sched::points() <= 40, "VERIF-BOUND: more scheduling points than the dispatch covers");
+  });
+}
+
+/// try_recv flavour of the same window (non-blocking).
+#[kani::proof]
+#[kani::unwind(4)]
+fn c04_q_spsc_try_recv_vs_send_then_drop() {
+  with_pick(40, |at| {
+  setup!(1, 0, tx, rx);
+  sched::set_preempt_at(at);
+  sched::install(a_send7_then_drop, 1, 1);
+  let r = rx.as_ref().unwrap().try_recv();
+  sched::run_pending();
+  sched::uninstall();
+  match r {
+    Ok(v) => assert!(v == 7, "C01: received a value never sent"),
+    Err(TryRecvError::Empty) => {
+      assert!(rx.as_ref().unwrap().try_recv() == Ok(7), "C04: sent value lost after the sender dropped");
+    }
+    Err(TryRecvError::Disconnected) => {
+      assert!(false, "C04: Disconnected although a sent value is still buffered");
+    }
+  }
+  kani::cover!(r.is_err(), "try_recv returned before the send landed");
+  std::mem::forget(rx);
+  std::mem::forget(tx);
+  assert!(sched::points() <= 40, "VERIF-BOUND: more scheduling points than the dispatch covers");
+  });
+}
+
+/// C01 race: timed receive vs send. Timeout => the value is still in the channel; Ok => it is the value.
+#[kani::proof]
+#[kani::unwind(4)]
+fn c01_q_spsc_recv_timeout_vs_send() {
+  with_pick(40, |at| {
+  setup!(1, 0, tx, rx);
+  sched::set_preempt_at(at);
+  sched::install(a_send7, 1, 1);
+  let r = rx.as_mut().unwrap().recv_timeout(Duration::from_nanos(5));
+  let sent_before_return = ACT_OK.load(Relaxed) == 1;
+  sched::run_pending();
+  sched::uninstall();
+  match r {
+    Ok(v) => assert!(v == 7 && sent_before_return, "C01: timed receive returned a value never sent"),
+    Err(RecvErrorTimeout::Timeout) => {
+      assert!(rx.as_ref().unwrap().try_recv() == Ok(7), "C01: Timeout consumed or lost the sent value");
+    }
+    Err(RecvErrorTimeout::Disconnected) => assert!(false, "C04: spurious Disconnected"),
+  }
+  kani::cover!(matches!(r, Err(RecvErrorTimeout::Timeout)) && sent_before_return, "timeout fired although the send had landed");
+  kani::cover!(r.is_ok(), "timed receive got the value");
+  std::mem::forget(rx);
+  std::mem::forget(tx);
+  assert!(sched::points() <= 40, "VERIF-BOUND: more scheduling points than the dispatch covers");
+  });
+}
+
+/// send_batch of two into a full cap-1 channel; two receives land anywhere: completes with Ok(2), order kept.
+#[kani::proof]
+#[kani::unwind(5)]
+fn c05_t_spsc_send_batch_vs_recvs() {
+  with_pick(40, |at| {
+  setup!(1, 1, tx, rx);
+  sched::set_preempt_at(at);
+  sched::install(a_recv, 2, 1);
+  sched::set_stuck_is_bug(true);
+  let r = tx.as_ref().unwrap().send_batch(vec![8, 9]);
+  match r {
+    Ok(n) => assert!(n == 2, "C01: send_batch reported a wrong count"),
+    Err(_) => assert!(false, "C05: send_batch failed although the receiver is alive"),
+  }
+  sched::run_pending();
+  sched::uninstall();
+  assert!(rx.as_ref().unwrap().try_recv() == Ok(9) || ACT_OK.load(Relaxed) < 2, "C02: batch order");
+  std::mem::forget(rx);
+  std::mem::forget(tx);
+  assert!(sched::points() <= 40, "VERIF-BOUND: more scheduling points than the dispatch covers");
+  });
+}
+
+/// recv_batch blocked on empty; a send lands anywhere.
+#[kani::proof]
+#[kani::unwind(5)]
+fn c05_t_spsc_recv_batch_vs_send() {
+  with_pick(40, |at| {
+  setup!(2, 0, tx, rx);
+  sched::set_preempt_at(at);
+  sched::install(a_send7, 1, 1);
+  sched::set_stuck_is_bug(true);
+  let r = rx.as_ref().unwrap().recv_batch(2);
+  match r {
+    Ok(v) => assert!(v.len() == 1 && v[0] == 7, "C05: recv_batch returned wrong values"),
+    Err(_) => assert!(false, "C05: recv_batch failed although the sender is alive"),
+  }
+  std::mem::forget(rx);
+  std::mem::forget(tx);
+  assert!(sched::points() <= 40, "VERIF-BOUND: more scheduling points than the dispatch covers");
+  });
+}
+
+/// playback / driver self-test probe (never part of a property)
 #[kani::proof]
 #[kani::unwind(4)]
 fn zz_probe_playback() {
-  let (tx, rx) = spsc::bounded_sync::<u8>(1);
-  let mut tx = std::mem::ManuallyDrop::new(tx);
-  TXP.store(&mut *tx as *mut _, Relaxed);
-  sched::install(actor_send, 1, 1);
-  let r = rx.try_recv();
+  setup!(1, 0, tx, rx);
+  sched::install(a_send7, 1, 1);
+  let r = rx.as_ref().unwrap().try_recv();
   assert!(!(r.is_err() && sched::pending() == 0), "PROBE: actor ran but try_recv saw Empty");
   std::mem::forget(rx);
+  std::mem::forget(tx);
 }
